@@ -16,7 +16,7 @@ SPEC_PRIMS = {
     "is_tuple", "is_container", "nvals", "prog_len", "prog_at", "is_gen", "is_slice", "is_enum", "is_exc", "is_userfunc", "Node", "NodeList", "Ctx", "nkeys", "key_at", "val_at", "has_key",
     "get", "num", "seq", "pending", "implies", "iff", "old", "raised", "exc_is", "same", "slice_of", "int_of", "str_of",
     "codepoint", "char", "ucall", "regex_fullmatch", "regex_search", "iregexp_ok", "str_count", "str_rfind", "int_str",
-    "canonical", "is_hexdigit_code", "slice_parts", "py_equal", "float_of", "truthy", "mk_list", "mk_tuple", "enum_ord", "func_id",
+    "canonical", "is_hexdigit_code", "finditer_outcome", "slice_parts", "py_equal", "float_of", "truthy", "mk_list", "mk_tuple", "enum_ord", "func_id",
 }
 
 
@@ -83,6 +83,24 @@ class CallMixin(ExprMixin):
     def quantifier(self, which, gen, st):
         if st.mode != "spec":
             return self.code_all_any(which, gen, st)
+        if len(gen.generators) == 1 and not gen.generators[0].ifs:
+            g0 = gen.generators[0]
+            it0 = self.as_iterable(self.ev1(g0.iter, st), st)
+            if it0.kind == "seq":
+                parts = self.concat_parts(it0.parts[0])
+                if len(parts) > 1 or (parts and parts[0][0] == "unit") or not parts:
+                    # all/any over a concatenation == conjunction/disjunction over its parts; unit parts
+                    # need no quantifier (keeps `forall n in out ++ [x]` obligations first-order trivial)
+                    terms = []
+                    for kind, t in parts:
+                        if kind == "unit":
+                            s1 = self.bind_target(g0.target, T("V", t), st.fork())
+                            terms.append(self.truthy(self.ev1(gen.elt, s1)))
+                        else:
+                            terms.append(self.quant_over_seq(which, g0, gen.elt, t, st))
+                    if which == "all":
+                        return self.ok(self.bool_(z3.And(*terms) if terms else z3.BoolVal(True)), st)
+                    return self.ok(self.bool_(z3.Or(*terms) if terms else z3.BoolVal(False)), st)
         js, rngs, pats = [], [], []
         s2 = st.fork()
         for g in gen.generators:
@@ -103,6 +121,36 @@ class CallMixin(ExprMixin):
         else:
             q = z3.Exists(js, z3.And(rng, body))
         return self.ok(self.bool_(q), st)
+
+    def concat_parts(self, seq):
+        """flatten a Seq term into [("unit", elem) | ("seq", term)]"""
+        out = []
+
+        def walk(t):
+            if z3.is_app(t):
+                k = t.decl().kind()
+                if k == z3.Z3_OP_SEQ_CONCAT:
+                    for ch in t.children():
+                        walk(ch)
+                    return
+                if k == z3.Z3_OP_SEQ_UNIT:
+                    out.append(("unit", t.arg(0)))
+                    return
+                if k == z3.Z3_OP_SEQ_EMPTY:
+                    return
+            out.append(("seq", t))
+
+        walk(seq)
+        return out
+
+    def quant_over_seq(self, which, g, elt, seqterm, st):
+        j = z3.Int(fresh_name("q"))
+        s2 = self.bind_target(g.target, T("V", seqterm[j]), st.fork())
+        body = self.truthy(self.ev1(elt, s2))
+        rng = z3.And(j >= 0, j < z3.Length(seqterm))
+        if which == "all":
+            return self.forall([j], z3.Implies(rng, body), [seqterm[j]])
+        return z3.Exists([j], z3.And(rng, body))
 
     def code_all_any(self, which, gen, st):
         """all(f(x) for x in S) executed by the code: element evaluated for an arbitrary index"""
@@ -499,6 +547,8 @@ class CallMixin(ExprMixin):
         if name == "ucall":
             f = self.uf("ucall", self.V, self.U.SeqV, self.V)
             return T("V", f(box(0), self.seq_term(a[1])))
+        if name == "finditer_outcome":
+            return T("V", self.uf("finditer_outcome", self.V, self.V, self.V)(box(0), box(1)))
         if name == "func_id":
             return self.int_(U.acc("fid", box()))
         if name in ("regex_fullmatch", "regex_search"):
@@ -766,7 +816,7 @@ class CallMixin(ExprMixin):
             raise Unsupported(f"callee {key} not found in source")
         self.used_contracts.add(key)
         env = self.bind_params(fn, recv, args, kwargs, st)
-        is_gen = any(isinstance(n, (ast.Yield, ast.YieldFrom)) for n in ast.walk(fn))
+        is_gen = bool(c.yields) or any(isinstance(n, (ast.Yield, ast.YieldFrom)) for n in ast.walk(fn))
         cs = State(env, st.pc, None, "spec", None, dict(st.ghost))
         save_mod, save_cls = self.cur_module, self.cur_class
         self.cur_module = key.split(":")[0]
@@ -793,7 +843,7 @@ class CallMixin(ExprMixin):
                 for ecls, cond in c.raises_iff:
                     ct = self.truthy(self.ev1(c.parsed(cond), cs))
                     facts.append(U.isinstance_exc(gexc, ecls) == ct)
-                s2 = st.fork(*facts)
+                s2 = self.assume(st, facts)
                 return self.ok(It("gen", [g], pending=gexc), s2)
             # ordinary function
             out = []
@@ -804,7 +854,7 @@ class CallMixin(ExprMixin):
             if self.feasible(ns):
                 rs = State(dict(env), ns.pc, None, "spec", None, dict(ns.ghost))
                 result = None
-                rest = list(c.ensures)
+                rest = list(c.defines) + list(c.ensures)
                 if rest:
                     first = c.parsed(rest[0])
                     if (isinstance(first, ast.Compare) and len(first.ops) == 1 and isinstance(first.ops[0], ast.Eq)
@@ -815,7 +865,7 @@ class CallMixin(ExprMixin):
                     result = T("V", z3.Const(fresh_name("res"), self.V))
                 rs.env["result"] = result
                 facts = [self.truthy(self.ev1(c.parsed(cl), rs)) for cl in rest]
-                out.extend(self.ok(result, ns.fork(*facts)))
+                out.extend(self.ok(result, self.assume(ns, facts)))
             if st.mode == "code":
                 for ecls, ct in iff_conds:
                     s3 = st.fork(ct)
